@@ -116,8 +116,9 @@ def seed_json():
             exec_result({'application/json': [1, 2, 3], 'text/plain': "[1, 2, 3]"}, ec=3, metadata={'needs_background': 'light'}),
         ], ec=3, id='j0'),
         code_cell("scalar()\n", outputs=[display({'application/json': 1, 'text/plain': "1"})], ec=5, id='j2'),
-        code_cell("plot()\n", outputs=[display({'image/png': PNG1, 'text/plain': "<Figure size 640x480 with 1 Axes>"})],
-                  ec=4, id='j1', metadata={'scrolled': True}),
+        code_cell("plot()\n", outputs=[display({'image/png': PNG1, 'text/plain': "<Figure size 640x480 with 1 Axes>"}),
+                                        display({})],                     # an empty mime bundle is valid
+                  ec=4, id='j1', metadata={'scrolled': True, 'note': ''}),
     ]
     return notebook(cells, 5, {'x': [[1], [2]], 'y': [{'k': 1}], 'kernelspec': cp(KSPEC['kernelspec'])})
 
@@ -423,7 +424,14 @@ def metadata_edits(md, toplevel=False):
     if 'collapsed' in md:
         m = cp(md); m['collapsed'] = not md['collapsed']; out.append(('collapsed-flip', m))
     if 'scrolled' in md:
+        # a transient flag with three distinct values (base, 'auto', the other boolean): both sides can change it differently
         m = cp(md); m['scrolled'] = 'auto'; out.append(('scrolled-auto', m))
+        m = cp(md); m['scrolled'] = not md['scrolled'] if isinstance(md['scrolled'], bool) else False; out.append(('scrolled-flip', m))
+    if 'note' in md:
+        m = cp(md); del m['note']; out.append(('note-unset', m))
+        m = cp(md); m['note'] = 'some text'; out.append(('note=text', m))
+    else:
+        m = cp(md); m['note'] = ''; out.append(('note=empty', m))        # an empty string as a value
     if 'nbdime-conflicts' in md:
         m = cp(md); del m['nbdime-conflicts']; out.append(('conflicts-unset', m))
         m = cp(md); m['nbdime-conflicts'] = {'local_diff': [], 'remote_diff': []}; out.append(('conflicts-emptied', m))
@@ -645,7 +653,8 @@ FOCUS = {
                'src@0:append-unterminated', 'src@0:terminate'),
     'meta': ('cellmeta@2:tags+extra', 'cellmeta@2:tags+other', 'cellmeta@2:collapsed-flip', 'cellmeta@2:custom=a1', 'cellmeta@2:custom=a2', 'cellmeta@2:level-2',
              'nbmeta:kspec-name', 'nbmeta:kspec-name:b', 'nbmeta:tags=new', 'nbmeta:x=lists'),
-    'cellmix0': ('ec@0:7', 'out@0:oec1', 'src@0:tweak1', 'src@0:repl2:a', 'cell-delete@0', 'rerun@0', 'cellmeta@0:custom=a1', 'cell-retype@0:raw', 'id@0:renamed'),
+    'cellmix0': ('ec@0:7', 'out@0:oec1', 'src@0:tweak1', 'src@0:repl2:a', 'cell-delete@0', 'rerun@0', 'cellmeta@0:custom=a1', 'cell-retype@0:raw', 'id@0:renamed',
+                 'out@0:data1:plain-tweak', 'out@0:stream0:tweak', 'out@0:stream0:first'),
     'cellmix2': ('cellmeta@2:collapsed-flip', 'src@2:tweak0', 'src@2:repl0:a', 'ec@2:7', 'cell-delete@2', 'cellmeta@2:tags+extra', 'out@2:append:Ostream',
                  'cell-move:1>2', 'cell-insert:C1@2'),
     'prevatt': ('att@4:replace:a.png:2', 'att@4:replace:a.png:3', 'att@4:remove:a.png', 'att@4:replace:2', 'att@4:replace:3', 'att@4:remove', 'att@4:add:b1', 'att@4:add:b2',
